@@ -21,7 +21,7 @@ EXPLANATION = (
     '(c) every concrete primitive implements _decode/encode/dna_spec; (d) '
     'candidates are validated before a value spec is bound, and bound tests '
     'use `is not None` (0 is a bound).  The decode/encode inverse law is not decided.')
-FLOORS = {'C13.a': 2, 'C13.b': 3, 'C13.c': 2, 'C13.d': 2, 'C13.e': 3, 'C13.z': 2}
+FLOORS = {'C13.a': 2, 'C13.b': 3, 'C13.c': 2, 'C13.d': 2, 'C13.e': 3, 'C13.z': 2, 'C13.f': 1}
 FILES = ['pyglove/core/hyper/object_template.py', 'pyglove/core/hyper/categorical.py',
          'pyglove/core/hyper/numerical.py', 'pyglove/core/hyper/custom.py',
          'pyglove/core/hyper/base.py', 'pyglove/core/hyper/iter.py',
@@ -248,6 +248,32 @@ def rule_e(ctx):
     raise AnalysisError(f'only {n} _decode implementations found')
 
 
+def rule_f(ctx):
+  """encode is type-strict: a float placeholder matches only a float, tested
+  on the value as it was given (no conversion first).  Encoding picks the first
+  candidate that accepts the value, so a float candidate that also accepts 5
+  shadows a later constant candidate 5 and encode(decode(dna)) != dna."""
+  idx = ctx.index
+  f = idx.func('pyglove.core.hyper.numerical.Float.encode')
+  g = C.cfg_of(f.node)
+  ps = [p for p in A.param_names(f.node) if p != 'self']
+  tests = [t for t in g.nodes if t.kind == 'test' and isinstance(t.ast, ast.Call) and A.call_name(t.ast) == 'isinstance'
+           and len(t.ast.args) == 2 and isinstance(t.ast.args[0], ast.Name) and t.ast.args[0].id in ps
+           and A.unparse(t.ast.args[1]) == 'float']
+  problems = []
+  if not tests:
+    problems.append('no isinstance(value, float) test on the input')
+  for t in tests:
+    if not g.always_raises_from(t, 'false'):
+      problems.append('a non-float input does not raise')
+    for dn, val in D.reaching_defs(g, t, t.ast.args[0].id):
+      if val is not None:
+        problems.append(f'the input is rewritten as `{A.unparse(val, 50)}` (line {dn.lineno}) before its type is tested: '
+                        f'non-float values are accepted and a float candidate shadows later constant candidates')
+  ctx.ob('C13.f', f.fq, not problems,
+         'a float placeholder encodes only float values, tested on the value as given', f.loc, '; '.join(problems))
+
+
 def run(ctx):
   ctx.consult(*FILES)
   rule_a(ctx)
@@ -255,5 +281,6 @@ def run(ctx):
   rule_c(ctx)
   rule_d(ctx)
   rule_e(ctx)
+  rule_f(ctx)
   S.optional_truthiness_obligations(ctx, 'C13.z', ['pyglove/core/hyper/categorical.py', 'pyglove/core/hyper/numerical.py', 'pyglove/core/hyper/object_template.py', 'pyglove/core/hyper/base.py'], 'choice 0 and bound 0.0 are values')
   ctx.assume('decode/encode inverse law, shape of decoded values and iteration counts are not decided')
